@@ -20,7 +20,9 @@ def run(ctx, R):
     rest(ctx, R)
 
 
-def views(ctx, R, names=('length', 'len', 'is_empty', 'address_family', 'address_bytes', 'tlv_bytes', 'as_bytes')):
+def views(ctx, R, names=('length', 'len', 'is_empty', 'address_family', 'address_bytes', 'tlv_bytes', 'as_bytes'), rule=None):
+    def rule_for(name):
+        return rule or {'length': 'C14.L', 'len': 'C14.L', 'is_empty': 'C14.L', 'as_bytes': 'C14.L', 'address_family': 'C14.F'}.get(name, 'C14.V')
     acc = {}
     for name in names:
         acc[name] = ctx.method(HDR, name)
@@ -37,6 +39,7 @@ def views(ctx, R, names=('length', 'len', 'is_empty', 'address_family', 'address
             if not outs:
                 R.require(False, 'C14', name, 'no summary')
                 continue
+            no_panic_gaps(R, rule_for(name), ev, p, label='%s/%s' % (name, var))
             split = n if var == 'Unspecified' else I(16 + size)
             exp = {
                 'length': T.sub(n, I(16)),
@@ -47,7 +50,7 @@ def views(ctx, R, names=('length', 'len', 'is_empty', 'address_family', 'address
                 'tlv_bytes': T.mk_slice(h, split, n),
                 'as_bytes': h,
             }[name]
-            rule = {'length': 'C14.L', 'len': 'C14.L', 'is_empty': 'C14.L', 'as_bytes': 'C14.L', 'address_family': 'C14.F'}.get(name, 'C14.V')
+            rule = rule_for(name)
             for o in outs:
                 found = o['ret']
                 ok = equal(found, exp) or (exp[0] in T.SEQ_TAGS and seq_equal_under(o['pc'], found, exp)) or \
